@@ -5,6 +5,7 @@ package main
 // calls are replaced by contracts, native models, inlined bodies or havoc.
 
 import (
+	"hash/fnv"
 	"fmt"
 	"os"
 	"runtime/debug"
@@ -113,9 +114,12 @@ type Frame struct {
 	curBlock  *ssa.BasicBlock
 	flowHook  func(from, to *ssa.BasicBlock, st *State) bool
 	parent    *Frame
+	panicStates []*State // states at calls that may panic, while a recovering defer is registered
 }
 
 type Exec struct {
+	panicMode  bool // deferred calls are being run because of a panic
+	didRecover bool // recover() was evaluated in panic mode
 	smt       *SMT
 	prog      *Program
 	obls      []*Obligation
@@ -500,9 +504,29 @@ func (x *Exec) fnConst(f *ssa.Function) string {
 	for _, o := range x.fnConsts {
 		ds = append(ds, not(eq(c, o)))
 	}
+	ds = append(ds, eq(app("fcode", c), x.fnCode(f)))
 	x.smt.Assert(and(ds...))
 	x.fnConsts[f] = c
 	return c
+}
+
+// fnCode identifies the code of a function value (shared by all closures of it).
+func (x *Exec) fnCode(f *ssa.Function) string {
+	if strings.HasSuffix(f.Name(), "$bound") {
+		// bound method value t.M: named after the method it binds
+		if obj, ok := f.Object().(*types.Func); ok {
+			if m := x.prog.ssa.FuncValue(obj); m != nil {
+				return fnCodeOf(x.prog.relName(m) + "$bound")
+			}
+		}
+	}
+	return fnCodeOf(x.prog.relName(f))
+}
+
+func fnCodeOf(rel string) string {
+	h := fnv.New32a()
+	h.Write([]byte(rel))
+	return bvLit(uint64(h.Sum32()), 32)
 }
 
 // ---------- obligations ----------
@@ -794,6 +818,7 @@ func (x *Exec) execBody(fr *Frame, entry *State) {
 		}
 		x.execBlock(fr, b, st, in, loops)
 	}
+	x.finishPanics(fr, in, loops)
 }
 
 func (x *Exec) mergePhi(fr *Frame, phi *ssa.Phi, edges []edgeState, b *ssa.BasicBlock) Val {
